@@ -144,11 +144,13 @@ Record env : Type := Env {
   e_re_norm : list N -> option (list N);
     (* external (regexp engines): None = the pattern does not parse/compile; Some s' = it does and
        syntax.Parse followed by RegexpString prints it as s' *)
-  e_nilfrom : list (string * outcome val)
+  e_nilfrom : list (string * outcome val);
     (* XFromProto(nil) for every struct type whose FromProto reads the message only through getters:
        what the function returns for an UNSET sub-message.  Go's generated getters answer the zero
        value on a nil receiver, so the entry must equal the model's FromProto of the message with
-       every field unset ([nilfrom_ok]; for the generated tables: theorem C24_unset_message_is_empty_message). *)
+       every field unset (for the generated tables: theorem C24_unset_message_is_empty_message). *)
+  e_flags_from_nil_safe : bool
+    (* RawConfigFromProto reads its message through getters (true) or dereferences it (false) *)
 }.
 
 Definition rows_of (E : env) (to : bool) (n : string) : option (list row) :=
@@ -266,7 +268,8 @@ Fixpoint apply (E : env) (c : conv) (v : val) {struct v} : outcome val :=
   | CFlagsFrom ps =>
       match v with
       | VR [(_, VL l)] => do z <- flags_from ps l; Ok (VZ z)
-      | VNil => Panic P_NIL       (* RawConfigFromProto reads p.Flags without a getter *)
+      | VNil => if e_flags_from_nil_safe E then Ok (VZ 0) else Panic P_NIL
+          (* RawConfigFromProto(nil): `range p.Flags` dereferences nil, `range p.GetFlags()` is empty *)
       | _ => Err ERR_SHAPE
       end
   | CUnknown _ => Err ERR_SHAPE
@@ -659,7 +662,9 @@ Inductive wcase : Type :=
      (recorded by a wrapping Streamer) and the handler answered with the message [resp] *)
 | WHandlerA (h : N) (req q opts : val) (retab : list (list N * option (list N)))
   (* the real handler was called with [req] and called the searcher with the query [q] and the options [opts] *)
-| WNilFrom (n : string) (obs : outcome val) (retab : list (list N * option (list N))).
+| WNilFrom (n : string) (obs : outcome val) (retab : list (list N * option (list N)))
+| WNilQPayload (pk : string) (obs : outcome val) (retab : list (list N * option (list N))).
+  (* the conversion QFromProto uses for the oneof case [pk] was called with a nil payload message *)
   (* the real XFromProto of struct type [n] was called with a nil message and produced [obs] *)
   (* the real handler was called: cls 0 = response or an error of the searcher, 1 = InvalidArgument, 3 = panic *)
 
